@@ -161,6 +161,19 @@ def frame_constraint(frame, W, R):
     raise ValueError(frame)
 
 
+def free_variables(s):
+    'variables occurring free in a sentence (`Sentence.variables` also lists bound occurrences)'
+    t = type(s)
+    if t is Quantified:
+        return free_variables(s.sentence) - {s.variable}
+    if t is Operated:
+        out = set()
+        for x in s.operands:
+            out |= free_variables(x)
+        return out
+    return set(s.variables)
+
+
 class Interp:
     """A symbolic interpretation for one logic over W worlds and K domain
     elements.
@@ -298,10 +311,10 @@ class Interp:
     def value(self, s, u=0, env=None):
         'z3 Int term: value of sentence s at world term u.'
         if self.opaque(s):
-            if s.variables:
+            if free_variables(s):
                 # an uninterpreted sentence with free variables is one atom per
                 # instantiation of those variables by elements
-                inst = tuple((v.spec, (env or {}).get(v)) for v in sorted(s.variables))
+                inst = tuple((v.spec, (env or {}).get(v)) for v in sorted(free_variables(s)))
                 if any(isinstance(e, z3.ExprRef) for _, e in inst):
                     raise NotImplementedError('open opaque sentence under a symbolic element')
                 return self._at(('O', s.ident, inst), u)
